@@ -13,6 +13,7 @@
    is not.  Not modelled at all: the depth-first emission order of modules / external modules. *)
 Require Import Hdl21.Base.PyInt Hdl21.Base.Design Hdl21.Base.Package Hdl21.Base.Dec Hdl21.Model.C11RoundTrip Hdl21.Proofs.C11Proofs.
 Require Import Hdl21.Model.C11Share Hdl21.Proofs.C11ShareProofs.
+Require Import Hdl21.Model.C11History Hdl21.Proofs.C11HistProofs.
 Require Import Hdl21Gen.PrefixTable Hdl21Gen.PrefixMaps Hdl21Gen.Primitives Hdl21Gen.C11Maps.
 From Coq Require Import String.
 Open Scope string_scope.
@@ -297,3 +298,105 @@ Example C11_struct_key_separates_twins :
   | _, _ => False
   end.
 Proof. vm_compute. split; reflexivity. Qed.
+
+
+(* ================================================================================================================== *)
+(* Strengthening round 2: export HISTORIES over mutable ExternalModule objects (Model/C11History.v).
+   An ExternalModule is a mutable object compared by identity; "every package produced by to_proto" includes the packages
+   produced after an object was given another port, had a port renamed, its spice type or name assigned.  Such a package
+   survives the round trip only if it declares the object as it IS (its instances are written from the live object). *)
+
+(* The exporter of the tree under test remembers nothing from one export to the next: ProtoExporter keeps exactly these tables,
+   to_proto makes a new one per call, exporting.py has no decorator / module- or class-level container / mutable default and
+   stores nothing on the objects it exports (regenerated from the source on every run), and the live probe (export, append a
+   port, export again; the free function likewise) sees the new port. *)
+Theorem C11_exporter_state :
+  exporter_state = ["ext_modules"; "ext_modules_by_name"; "modules_by_id"; "modules_by_name"; "pkg"; "tops"] /\
+  exporter_memo = [] /\ to_proto_fresh_exporter = true /\ exporter_probe_current = true.
+Proof. repeat split; reflexivity. Qed.
+Print Assumptions C11_exporter_state.
+
+(* One export of the exporter that remembers nothing: for EVERY heap of object states and every walk, the declarations of the
+   package are those of the objects as they are - each is the current declaration of a used object, every used object's
+   current declaration is there, each (domain, name) once. *)
+Theorem C11_export_declares_current : forall hp uses ds m,
+  export_one unit decl_fresh hp tt uses = Ok (ds, m) -> decls_current hp uses ds.
+Proof. exact fresh_export_current. Qed.
+Print Assumptions C11_export_declares_current.
+
+(* Histories: whatever mutations and exports (returned, silent, direct declarations) came before, every observing step of that
+   exporter returns a function of the heap it sees and of nothing else ... *)
+Theorem C11_history_independent : forall ops hp,
+  run_hist unit decl_fresh hp tt ops = map (fun ho => observe (fst ho) (snd ho)) (heaps_seen hp ops).
+Proof. exact fresh_history_independent. Qed.
+Print Assumptions C11_history_independent.
+
+(* ... hence every package of every history declares the objects as they are at that moment. *)
+Theorem C11_history_declares_current : forall ops hp n h u ds,
+  nth_error (heaps_seen hp ops) n = Some (h, HExport u) ->
+  nth_error (run_hist unit decl_fresh hp tt ops) n = Some (Some ds) -> decls_current h u ds.
+Proof. exact fresh_history_current. Qed.
+Print Assumptions C11_history_declares_current.
+
+Theorem C11_history_decl_current : forall ops hp n h k d,
+  nth_error (heaps_seen hp ops) n = Some (h, HDecl k) ->
+  nth_error (run_hist unit decl_fresh hp tt ops) n = Some (Some [d]) ->
+  exists o, nth_error h k = Some o /\ decl_of o = Ok d.
+Proof. exact fresh_decl_current. Qed.
+
+(* the boolean the correspondence run evaluates on the implementation's packages IS the specification *)
+Theorem C11_decls_current_b_spec : forall hp uses ds, decls_current_b hp uses ds = true <-> decls_current hp uses ds.
+Proof. exact decls_current_b_spec. Qed.
+Print Assumptions C11_decls_current_b_spec.
+
+(* A declaration cache keyed by the identity of the object (functools.lru_cache on export_external_module) cannot be told from
+   that exporter by ANY history without a mutation - single exports, repeated exports of unchanged objects: everything the
+   earlier streams and the test suite contain ... *)
+Theorem C11_memo_unseen_without_mutation : forall ops hp m, memo_ok hp m -> no_mutation ops = true ->
+  run_hist _ decl_memo_id hp m ops = run_hist unit decl_fresh hp tt ops.
+Proof. exact memo_unseen_without_mutation. Qed.
+Print Assumptions C11_memo_unseen_without_mutation.
+
+(* ... and is refuted by the shortest history with one: export a three-terminal cell, append its well tap, export a design that
+   connects it.  The second package declares [a; z; vss], its instance connects vnw: the importer refuses it (rt_pkg = Error),
+   while the package of the exporter that remembers nothing is a fixed point of the round trip. *)
+Definition cell3_decl (ports : list (name * string)) : c11ext :=
+  {| cx_domain := "extlib"; cx_name := "cell3"; cx_sigs := map (fun p => (fst p, 1)) ports; cx_ports := ports; cx_spicetype := "SUBCKT" |}.
+Definition d3 := cell3_decl [("a", "INPUT"); ("z", "OUTPUT"); ("vss", "NONE")].
+Definition d4 := cell3_decl [("a", "INPUT"); ("z", "OUTPUT"); ("vss", "NONE"); ("vnw", "NONE")].
+Definition heap4 : heap := match mutate [cell3] 0 (MAppend vnw) with Ok h => h | Error _ => [] end.
+
+Theorem C11_memo_export_refuted :
+    run_hist _ decl_memo_id [cell3] [] well_tap_history = [Some [d3]; Some [d3]] /\
+    run_hist unit decl_fresh [cell3] tt well_tap_history = [Some [d3]; Some [d4]] /\
+    d3 <> d4 /\ decls_current_b heap4 [0%nat] [d3] = false /\ decls_current_b heap4 [0%nat] [d4] = true /\
+    (exists p, design_pkg heap4 "Second" [("i", 0%nat)] [d4] = Ok p /\ rt_pkg p = Ok p) /\
+    (exists p, design_pkg heap4 "Second" [("i", 0%nat)] [d3] = Ok p /\ rt_pkg p = Error EExtra).
+Proof.
+  split; [vm_compute; reflexivity|]. split; [vm_compute; reflexivity|]. split; [vm_compute; discriminate|].
+  split; [vm_compute; reflexivity|]. split; [vm_compute; reflexivity|]. split.
+  - eexists. split; [vm_compute; reflexivity|]. vm_compute. reflexivity.
+  - eexists. split; [vm_compute; reflexivity|]. vm_compute. reflexivity.
+Qed.
+Print Assumptions C11_memo_export_refuted.
+
+(* Over a heap of normal objects (distinct port names, members of PortDir and SpiceType) the current declaration of an object is
+   in the round trip's normal form, so the external-module part of every package of every history survives from_proto/to_proto. *)
+Theorem C11_current_decl_normal : forall o x, obj_normal o = true -> decl_of o = Ok x -> ext_normal x = true.
+Proof. exact current_decl_normal. Qed.
+Theorem C11_current_decls_roundtrip : forall hp uses ds, forallb obj_normal hp = true -> decls_current hp uses ds ->
+  forall d, In d ds -> rt_ext d = Ok d.
+Proof. exact current_decls_roundtrip. Qed.
+Print Assumptions C11_current_decls_roundtrip.
+Example C11_current_decl_nonvacuous : obj_normal cell3 = true /\ forallb obj_normal heap4 = true /\ decl_of cell3 = Ok d3.
+Proof. vm_compute. repeat split; reflexivity. Qed.
+
+(* non-vacuity: a history with every kind of step on two objects; the fresh exporter's packages are current at each step *)
+Example C11_history_nonvacuous :
+  let o2 := {| eo_domain := ""; eo_name := "tap"; eo_ports := [{| ep_name := "p"; ep_width := 2; ep_dir := "INOUT" |}]; eo_spicetype := "DIODE" |} in
+  let ops := [HExport [0; 1; 0]%nat; HMut 1 (MRename 0 "q"); HSilent [1%nat]; HMut 0 (MSpice "MOS"); HDecl 0; HMut 0 (MRemove 1);
+              HMut 1 MSilent; HExport [1; 0]%nat] in
+  List.length (heaps_seen [cell3; o2] ops) = 3%nat /\
+  forallb (fun x => match x with Some _ => true | None => false end) (run_hist unit decl_fresh [cell3; o2] tt ops) = true /\
+  run_hist _ decl_memo_id [cell3; o2] [] ops <> run_hist unit decl_fresh [cell3; o2] tt ops.
+Proof. vm_compute. split; [reflexivity|]. split; [reflexivity|discriminate]. Qed.
